@@ -192,4 +192,10 @@ def resOutW (r : Res World) (w0 : World) : StepOut × Bool :=
 
 def nat! (s : String) : Nat := s.toNat!
 
+/-- Environment of an owning iterator consumed through `fold` by a consumer that panics at the `k`-th element
+    (`1 ≤ k ≤ len`): the remaining elements are dropped WHILE UNWINDING, where the harness' destructors never
+    start a second panic (that would abort the process by Rust's rules). -/
+def foldEnv (env : Env) (k : Nat) (w : World) : Env :=
+  if 1 ≤ k ∧ k ≤ w.t.items then { env with dropPanics := fun _ _ => false } else env
+
 end Hb.Driver
